@@ -163,7 +163,7 @@ def CallCorr (lo : LocalOut) : Prop :=
   (∃ e, lo = { ends := [e] } ∧ e.st = cs.st ∧ ((∃ r', e.out = .stuck r') ∨ e.tag ≠ .normal)) ∨
   (∃ h, lo = localHalt cs.st h ∧ haltWith h [] = h ∧ Evm.step p w f = .halt w h) ∨
   (∃ cs' w' f' kcs', lo = { next := [cs'] } ∧ cs'.st.path = cs.st.path ∧ RelC I p S w0 cs' w' f' kcs' ∧
-      (∀ r, RunStack p w f kcs r ↔ RunStack p w' f' kcs' r) ∧ (BBAll w kcs → BBAll w' kcs'))
+      (∀ r, RunStack p w f kcs r ↔ RunStack p w' f' kcs' r) ∧ (BBAllT w kcs → BBAllT w' kcs'))
 
 end
 
@@ -509,7 +509,7 @@ theorem reBV160_term (hs : SimpSound s) {v : HV} {n : Nat} (hw : WordRel I v n) 
     refine ⟨z1, z2, ?_⟩
     rw [z3, d, hw.2.2]
     have hlt : n < 2 ^ 160 := by
-      have := denote_lt wf
+      have := denote_lt (I := I) wf
       rw [d, hw.2.2] at this
       exact this
     exact (Nat.mod_eq_of_lt hlt).symm
@@ -550,7 +550,8 @@ def BalCorr (I : Interp) (p : Evm.Params) (S : Nat → Prop) (w0 : Evm.World) (s
     (f : Evm.Frame) (kcs : List CCont) (lo : LocalOut) : Prop :=
   (∃ e, lo = { ends := [e] } ∧ e.st = cs.st ∧ ((∃ r', e.out = .stuck r') ∨ e.tag ≠ .normal)) ∨
   (∃ h, lo = localHalt cs.st h ∧ haltWith h [] = h ∧ Evm.step p w f = .halt w h) ∨
-  (∃ cs' f' conds X, lo = { next := [cs'] } ∧ (∀ c ∈ conds, c.WF) ∧ X.path = cs.st.path ∧
+  (∃ (cs' : CState) (f' : Evm.Frame) (conds : List B) (X : SState),
+      lo = { next := [cs'] } ∧ (∀ c ∈ conds, c.WF) ∧ X.path = cs.st.path ∧
       cs'.st.path = (conds.foldl (addCond s) X).path ∧ cs'.conts = cs.conts ∧
       RelC I p S w0 cs' w f' kcs ∧ (∀ r, RunStack p w f kcs r ↔ RunStack p w f' kcs r) ∧
       (BalBound w → ∀ c ∈ conds, c.eval I = true))
@@ -581,7 +582,8 @@ theorem balOut_corr (hs : SimpSound s) (ho : OracleSound o) (hb : BalHyp I cfg w
       simp only
       refine Or.inr (Or.inr ⟨_, _, conds, { cs.st with stack := rest }, rfl, cwf, rfl, rfl, rfl, ?_,
         fun r => runStack_next hstep kcs r, fun hbb c hc => ?_⟩)
-      · refine hrel.withConds hs cwf (X := { cs.st with stack := rest }) rfl rfl rfl rfl
+      · refine hrel.withConds hs cwf (X := { cs.st with stack := rest })
+          (st' := pushTerm s (conds.foldl (addCond s) { cs.st with stack := rest }) v) rfl rfl rfl rfl
           ⟨_, rfl, rfl, rfl, rfl, rfl⟩ ⟨rfl, rfl, rfl, rfl, rfl, rfl, rfl⟩ ?_ ?_ ?_ ?_
         · show f.pc + 1 = (conds.foldl (addCond s) { cs.st with stack := rest }).pc + 1
           rw [addConds_pc, hR.pc]
@@ -611,8 +613,7 @@ theorem balOut_corr (hs : SimpSound s) (ho : OracleSound o) (hb : BalHyp I cfg w
     rw [if_neg hw160]
     have hstep := evm_selfbalance (p := p) (w := w) hopc hlc
     rw [push_eq] at hstep
-    have := go cs.env.address cs.st.stack f.stack f.this hR.env.address.1 (by omega) hR.env.address.2.2 hR.stack hstep
-    simpa using this
+    exact go cs.env.address cs.st.stack f.stack f.this hR.env.address.1 (by omega) hR.env.address.2.2 hR.stack hstep
   · rw [if_neg h47]
     have h31 : op = 0x31 := by rcases hbalop with h | h; exact h; exact absurd h h47
     subst h31
@@ -633,10 +634,489 @@ theorem balOut_corr (hs : SimpSound s) (ho : OracleSound o) (hb : BalHyp I cfg w
         have hstep : Evm.step p w f = .next w { f with
             stack := w.balanceOf (Evm.addrMask a) % Evm.W :: crest, pc := f.pc + 1 } := by
           rw [evm_balance hopc hlc]; unfold Evm.op1; rw [hc0]
-        have := go (asZ3 160 r) rest crest (Evm.addrMask a) k1 k2 k3 hrest hstep
-        rw [hcs] at this
-        exact this
+        exact go (asZ3 160 r) rest crest (Evm.addrMask a) k1 k2 k3 hrest hstep
       · exact Or.inl ⟨_, rfl, rfl, Or.inl ⟨_, rfl⟩⟩
+
+end
+
+/-! ### a call with a value -/
+
+section
+variable {I : Interp} {p : Evm.Params} {S : Nat → Prop} {w0 : Evm.World}
+variable {cs : CState} {w : Evm.World} {f : Evm.Frame} {kcs : List CCont}
+variable {s : Simp} {o : Oracle} {cfg : Cfg} {codes : List (Nat × List Nat)}
+
+/-- the same state in another world, described by another balance array -/
+theorem RelC.setBal (hrel : RelC I p S w0 cs w f kcs) {w' : Evm.World} {bal' : List (T × T)}
+    (hW : WRelM I S w0 w' (viewOf cs) (evalLogs I cs.logs) (balSem I w0 bal')) (hwf : ChainWF bal') :
+    RelC I p S w0 { cs with bal := bal' } w' f kcs :=
+  ⟨hrel.hR, hrel.this, hrel.inS, hrel.depth, hrel.hcode, hW.congr (fun a _ => rfl), hwf, hrel.conts⟩
+
+/-- a world that differs in its balances only -/
+theorem WRelM.setBalances {v : Nat → AcctSto} {lg : List (Nat × List Nat × List Nat)} {bs bs' : Nat → Nat}
+    (h : WRelM I S w0 w v lg bs) {w' : Evm.World} (hsto : w'.storage = w.storage) (htr : w'.transient = w.transient)
+    (hcode : w'.code = w.code) (hcr : w'.created = w.created) (hlogs : w'.logs = w.logs)
+    (hbal : ∀ a, w'.balanceOf a = bs' a) : WRelM I S w0 w' v lg bs' :=
+  ⟨fun a ha slot => by rw [hsto]; exact h.hsto a ha slot, fun a ha slot => by rw [htr]; exact h.htr a ha slot, h.wf,
+   fun a slot ha => by rw [hsto, htr]; exact h.other a slot ha, hcode.trans h.code, hcr.trans h.created,
+   hlogs.trans h.logs, hbal⟩
+
+theorem callWorld_fields (kind : Nat) (w : Evm.World) (a t v : Nat) :
+    (callWorld kind w a t v).storage = w.storage ∧ (callWorld kind w a t v).transient = w.transient ∧
+    (callWorld kind w a t v).code = w.code ∧ (callWorld kind w a t v).created = w.created ∧
+    (callWorld kind w a t v).logs = w.logs := by
+  unfold callWorld
+  split <;> exact ⟨rfl, rfl, rfl, rfl, rfl⟩
+
+/-- everything the two directions need to know about a value-bearing call once the caller's balance has been read -/
+structure ValueCtx (I : Interp) (p : Evm.Params) (S : Nat → Prop) (w0 : Evm.World) (s : Simp) (cs : CState)
+    (w : Evm.World) (f : Evm.Frame) (kcs : List CCont) (op t v : Nat) (fv : T) (ao al ro rl : Nat) (rest : List HV)
+    (f1t : Evm.Frame) (bc : T) (conds1 : List B) : Prop where
+  hrel : RelC I p S w0 cs w f kcs
+  hsat : Sat I cs.st.path
+  h7 : op = 0xf1 ∨ op = 0xf2
+  ht : t < 2 ^ 160
+  hfv : fv.WF ∧ fv.width = 256 ∧ fv.eval I = v
+  hme : cs.env.address.WF ∧ cs.env.address.width = 160 ∧ cs.env.address.eval I = f.this
+  hbc : bc.WF ∧ bc.width = 256 ∧ bc.eval I = w.balanceOf f.this
+  hc1 : ∀ c ∈ conds1, c.WF
+  hc1t : BalBound w → ∀ c ∈ conds1, c.eval I = true
+  hRk : R I cs.env cs.code p { cs.st with stack := rest } f1t
+  ectx : f1t.code = f.code ∧ f1t.caller = f.caller ∧ f1t.value = f.value ∧ f1t.this = f.this ∧
+    f1t.calldata = f.calldata ∧ f1t.isStatic = f.isStatic ∧ f1t.depth = f.depth
+  epc : f1t.pc = f.pc
+  emem : f1t.mem = f.mem
+  hstat : (decide (op = 0xf1) && f1t.isStatic && decide (v ≠ 0)) = false
+
+section
+variable {op t v : Nat} {fv : T} {ao al ro rl : Nat} {rest : List HV} {f1t : Evm.Frame} {bc : T} {conds1 : List B}
+
+theorem ValueCtx.insuff_ok (hs : SimpSound s) (hx : ValueCtx I p S w0 s cs w f kcs op t v fv ao al ro rl rest f1t bc conds1) :
+    (s.b (.cmp .ult bc fv)).WF ∧ ((s.b (.cmp .ult bc fv)).eval I = decide (w.balanceOf f.this < v)) := by
+  have hwf : (B.cmp .ult bc fv).WF := ⟨hx.hbc.1, hx.hfv.1, by rw [hx.hbc.2.1, hx.hfv.2.1]⟩
+  refine ⟨hs.wfB _ hwf, ?_⟩
+  rw [hs.evalB I _ hwf]
+  simp only [B.eval, CmpOp.eval, hx.hbc.2.2, hx.hfv.2.2]
+
+theorem ValueCtx.suff_ok (hs : SimpSound s) (hx : ValueCtx I p S w0 s cs w f kcs op t v fv ao al ro rl rest f1t bc conds1) :
+    (s.b (.cmp .uge bc fv)).WF ∧ ((s.b (.cmp .uge bc fv)).eval I = decide (w.balanceOf f.this ≥ v)) := by
+  have hwf : (B.cmp .uge bc fv).WF := ⟨hx.hbc.1, hx.hfv.1, by rw [hx.hbc.2.1, hx.hfv.2.1]⟩
+  refine ⟨hs.wfB _ hwf, ?_⟩
+  rw [hs.evalB I _ hwf]
+  simp only [B.eval, CmpOp.eval, hx.hbc.2.2, hx.hfv.2.2]
+
+/-- the insufficient-funds branch against the reference's caller going on with flag 0 -/
+theorem ValueCtx.fail_rel (hs : SimpSound s) (hx : ValueCtx I p S w0 s cs w f kcs op t v fv ao al ro rl rest f1t bc conds1) :
+    RelC I p S w0
+      { cs with st := { (addCond s (conds1.foldl (addCond s) cs.st) (s.b (.cmp .ult bc fv))) with
+                          pc := cs.st.pc + 1, stack := .bv 256 (.con 0) :: rest, returndata := [] } }
+      w (failFrame f1t) kcs := by
+  obtain ⟨c1, c2, c3, c4, c5, c6, c7⟩ := hx.ectx
+  have hwf : ∀ c ∈ conds1 ++ [s.b (.cmp .ult bc fv)], c.WF := by
+    intro c hc
+    rcases List.mem_append.1 hc with hc | hc
+    · exact hx.hc1 c hc
+    · rw [List.mem_singleton.1 hc]; exact (hx.insuff_ok hs).1
+  refine hx.hrel.withConds hs hwf (X := cs.st) rfl rfl rfl rfl
+    ⟨_, rfl, by simp [List.foldl_append], by simp [List.foldl_append], by simp [List.foldl_append],
+      by simp [List.foldl_append]⟩
+    ⟨c1, c2, c3, c4, c5, c6, c7⟩ ?_ ?_ ?_ (MemRel.nil I)
+  · show f1t.pc + 1 = cs.st.pc + 1
+    rw [hx.epc, hx.hrel.hR.pc]
+  · exact StackRel.cons (wordRel_con (by norm_num)) hx.hRk.stack
+  · show MemRel I (addCond s (conds1.foldl (addCond s) cs.st) _).mem f1t.mem
+    rw [addCond_mem, addConds_mem, hx.emem]; exact hx.hrel.hR.mem
+
+/-- the state of the main path: the conditions of the first balance read, the sufficiency condition, those of the
+    second read -/
+def mainSt (s : Simp) (cs : CState) (bc fv : T) (conds1 conds2 : List B) : SState :=
+  conds2.foldl (addCond s) (addCond s (conds1.foldl (addCond s) cs.st) (s.b (.cmp .uge bc fv)))
+
+theorem mainSt_eq (s : Simp) (cs : CState) (bc fv : T) (conds1 conds2 : List B) :
+    mainSt s cs bc fv conds1 conds2 = (conds1 ++ [s.b (.cmp .uge bc fv)] ++ conds2).foldl (addCond s) cs.st := by
+  simp [mainSt, List.foldl_append]
+
+theorem ValueCtx.main_wf (hs : SimpSound s)
+    (hx : ValueCtx I p S w0 s cs w f kcs op t v fv ao al ro rl rest f1t bc conds1) {conds2 : List B}
+    (hc2 : ∀ c ∈ conds2, c.WF) : ∀ c ∈ conds1 ++ [s.b (.cmp .uge bc fv)] ++ conds2, c.WF := by
+  intro c hc
+  rcases List.mem_append.1 hc with hc | hc
+  · rcases List.mem_append.1 hc with hc | hc
+    · exact hx.hc1 c hc
+    · rw [List.mem_singleton.1 hc]; exact (hx.suff_ok hs).1
+  · exact hc2 c hc
+
+/-- the main path going on after a call to an account without code -/
+theorem ValueCtx.main_nocode (hs : SimpSound s)
+    (hx : ValueCtx I p S w0 s cs w f kcs op t v fv ao al ro rl rest f1t bc conds1) {conds2 : List B}
+    (hc2 : ∀ c ∈ conds2, c.WF) {wT : Evm.World} {bal' : List (T × T)}
+    (hWT : WRelM I S w0 wT (viewOf cs) (evalLogs I cs.logs) (balSem I w0 bal')) (hwf : ChainWF bal') :
+    RelC I p S w0
+      { cs with st := { (mainSt s cs bc fv conds1 conds2) with pc := cs.st.pc + 1, stack := .bv 256 (.con 1) :: rest, returndata := [] }, bal := bal' }
+      wT (resumeFrame ⟨w, f1t, ro, rl⟩ (.success [])) kcs := by
+  obtain ⟨c1, c2, c3, c4, c5, c6, c7⟩ := hx.ectx
+  have h1 : RelC I p S w0
+      { cs with st := { (mainSt s cs bc fv conds1 conds2) with pc := cs.st.pc + 1, stack := .bv 256 (.con 1) :: rest, returndata := [] } }
+      w (resumeFrame ⟨w, f1t, ro, rl⟩ (.success [])) kcs := by
+    refine hx.hrel.withConds hs (hx.main_wf hs hc2) (X := cs.st) rfl rfl rfl rfl
+      ⟨_, rfl, by rw [mainSt_eq], by rw [mainSt_eq], by rw [mainSt_eq], by rw [mainSt_eq]⟩
+      ⟨c1, c2, c3, c4, c5, c6, c7⟩ ?_ ?_ ?_ (MemRel.nil I)
+    · show f1t.pc + 1 = cs.st.pc + 1
+      rw [hx.epc, hx.hrel.hR.pc]
+    · exact StackRel.cons (wordRel_con (by norm_num)) hx.hRk.stack
+    · show MemRel I (mainSt s cs bc fv conds1 conds2).mem (Evm.writeBytes f1t.mem ro _)
+      simp only [Evm.Halt.data, List.take_nil, writeBytes_nil]
+      rw [mainSt_eq, addConds_mem, hx.emem]; exact hx.hrel.hR.mem
+  refine h1.setBal (hWT.congr (fun a _ => ?_)) hwf
+  simp only [viewOf, mainSt_eq, (addConds_storage s _ cs.st).1, (addConds_storage s _ cs.st).2]
+
+/-- the callee of the main path -/
+theorem ValueCtx.main_callee (hs : SimpSound s) (hS : ∀ a prog, codeOf codes a = some prog → S a)
+    (hcb : ∀ a prog, codeOf codes a = some prog → ∀ b ∈ prog, b < 256)
+    (hx : ValueCtx I p S w0 s cs w f kcs op t v fv ao al ro rl rest f1t bc conds1) {conds2 : List B}
+    (hc2 : ∀ c ∈ conds2, c.WF) {wT : Evm.World} {bal' : List (T × T)}
+    (hWT : WRelM I S w0 wT (viewOf cs) (evalLogs I cs.logs) (balSem I w0 bal')) (hwf : ChainWF bal')
+    {prog : List Nat} (hc : codeOf codes t = some prog) (hwcode : w.codeOf t = codeOf codes t) :
+    RelC I p S w0
+      (calleeOfG s { cs with st := mainSt s cs bc fv conds1 conds2, bal := bal' } op t ao al ro rl rest prog fv cs.bal)
+      wT (calleeFrameV op f1t w t v ao al) (⟨w, f1t, ro, rl⟩ :: kcs) := by
+  obtain ⟨c1, c2, c3, c4, c5, c6, c7⟩ := hx.ectx
+  have h1 : RelC I p S w0 { cs with st := { (mainSt s cs bc fv conds1 conds2) with stack := rest } } w f1t kcs := by
+    refine hx.hrel.withConds hs (hx.main_wf hs hc2) (X := cs.st) rfl rfl rfl rfl
+      ⟨_, rfl, by rw [mainSt_eq], by rw [mainSt_eq], by rw [mainSt_eq], by rw [mainSt_eq]⟩
+      ⟨c1, c2, c3, c4, c5, c6, c7⟩ ?_ hx.hRk.stack ?_ ?_
+    · show f1t.pc = (mainSt s cs bc fv conds1 conds2).pc
+      rw [mainSt_eq, addConds_pc]; exact hx.hRk.pc
+    · show MemRel I (mainSt s cs bc fv conds1 conds2).mem f1t.mem
+      rw [mainSt_eq, addConds_mem]; exact hx.hRk.mem
+    · show MemRel I (mainSt s cs bc fv conds1 conds2).returndata f1t.returndata
+      rw [mainSt_eq, addConds_returndata]; exact hx.hRk.retdata
+  have hview : ∀ a, viewOf { cs with st := mainSt s cs bc fv conds1 conds2, bal := bal' } a = viewOf cs a := by
+    intro a
+    simp only [viewOf, mainSt_eq, (addConds_storage s _ cs.st).1, (addConds_storage s _ cs.st).2]
+  have hcall : op = 0xf1 ∨ op = 0xf2 ∨ op = 0xf4 ∨ op = 0xfa := by
+    rcases hx.h7 with h | h
+    · exact Or.inl h
+    · exact Or.inr (Or.inl h)
+  exact relC_callee (csx := { cs with st := mainSt s cs bc fv conds1 conds2, bal := bal' }) hs hS hcb h1.hR
+    (c4.trans hx.hrel.this) hx.hrel.inS (c7.trans hx.hrel.depth) hx.hrel.hcode
+    (hWT.congr (fun a _ => hview a)) hwf (hx.hrel.hW.congr (fun a _ => hview a)) hx.hrel.hbal hx.hrel.conts hc hwcode
+    hcall hx.ht ⟨hx.hfv.1, by rw [hx.hfv.2.1], hx.hfv.2.2⟩
+
+end
+
+end
+
+/-! the two parts of `callGoV`, named -/
+
+/-- the insufficient-funds successor, unless refuted -/
+def failNextOf (s : Simp) (o : Oracle) (cs : CState) (bc fv : T) (conds1 : List B) (rest : List HV) : List CState :=
+  if exCheck s o (conds1.foldl (addCond s) cs.st).path (s.b (.cmp .ult bc fv)) = .unsat then []
+  else [{ cs with st := { (addCond s (conds1.foldl (addCond s) cs.st) (s.b (.cmp .ult bc fv))) with pc := cs.st.pc + 1, stack := .bv 256 (.con 0) :: rest, returndata := [] } }]
+
+/-- the main path -/
+def mainOf (s : Simp) (o : Oracle) (cfg : Cfg) (codes : List (Nat × List Nat)) (cs : CState) (op t : Nat) (fv : T)
+    (aloc asize rloc rsize : Nat) (rest : List HV) (bc : T) (conds1 : List B) : LocalOut :=
+  let st := cs.st
+  let st1 := conds1.foldl (addCond s) st
+  if specialAddr t then localStuck st (.unsupported op)
+  else if cs.depth + 1 > 1024 then localStuck st (.unsupported op)
+  else
+    let suff := s.b (.cmp .uge bc fv)
+    if suff = .lit false then {}
+    else
+      let st2 := addCond s st1 suff
+      match (if op = 0xf1 then transferM s o cfg st2 cs.bal cs.env.address (.lit 160 t) bc fv else some (st2, cs.bal)) with
+      | none => localStuck st (.unsupported op)
+      | some (st3, bal') =>
+        match codeOf codes t with
+        | none =>
+          { next := [{ cs with st := { st3 with pc := st.pc + 1, stack := .bv 256 (.con 1) :: rest, returndata := [] }, bal := bal' }] }
+        | some prog =>
+          { next := [calleeOfG s { cs with st := st3, bal := bal' } op t aloc asize rloc rsize rest prog fv cs.bal] }
+
+theorem callGoV_eq {s : Simp} {o : Oracle} {cfg : Cfg} {codes : List (Nat × List Nat)} {cs : CState} {op t : Nat}
+    {fv : T} {ao al ro rl : Nat} {rest : List HV} (hbal : cfg.balances = true)
+    (hst : ¬ (cs.env.isStatic = true ∧ op = 0xf1)) (hw : cs.env.address.width = 160) {bc : T} {conds1 : List B}
+    (hbo : balanceOfM s o cfg cs.st.path cs.bal cs.env.address = some (bc, conds1)) :
+    callGoV s o cfg codes cs op t fv ao al ro rl rest =
+      { next := failNextOf s o cs bc fv conds1 rest ++ (mainOf s o cfg codes cs op t fv ao al ro rl rest bc conds1).next,
+        ends := (mainOf s o cfg codes cs op t fv ao al ro rl rest bc conds1).ends } := by
+  unfold callGoV
+  have h1 : ¬ (!cfg.balances) = true := by simp [hbal]
+  have h3 : ¬ cs.env.address.width ≠ 160 := by simp [hw]
+  simp only [h1, hst, h3, if_false, hbo]
+  rfl
+
+/-- what the main path is: an error report; nothing (the sufficiency condition is literally false); or one successor —
+    the caller going on (target without code) or the callee — after the conditions `conds2` of the second balance read
+    (CALL) with the balance array `bal'` -/
+theorem mainOf_cases (s : Simp) (o : Oracle) (cfg : Cfg) (codes : List (Nat × List Nat)) (cs : CState) (op t : Nat)
+    (fv : T) (ao al ro rl : Nat) (rest : List HV) (bc : T) (conds1 : List B) :
+    (∃ e, mainOf s o cfg codes cs op t fv ao al ro rl rest bc conds1 = { ends := [e] } ∧ e.st = cs.st ∧
+        ∃ r', e.out = .stuck r') ∨
+    (mainOf s o cfg codes cs op t fv ao al ro rl rest bc conds1 = {} ∧ s.b (.cmp .uge bc fv) = .lit false) ∨
+    (∃ (conds2 : List B) (bal' : List (T × T)), ¬ cs.depth + 1 > 1024 ∧
+      ((op = 0xf1 ∧ ∃ bt, balanceOfM s o cfg (addCond s (conds1.foldl (addCond s) cs.st) (s.b (.cmp .uge bc fv))).path
+            ((cs.env.address, .bin .sub bc fv) :: cs.bal) (.lit 160 t) = some (bt, conds2) ∧
+          bal' = (.lit 160 t, .bin .add bt fv) :: (cs.env.address, .bin .sub bc fv) :: cs.bal) ∨
+       (op ≠ 0xf1 ∧ conds2 = [] ∧ bal' = cs.bal)) ∧
+      ((codeOf codes t = none ∧ mainOf s o cfg codes cs op t fv ao al ro rl rest bc conds1 =
+          { next := [{ cs with st := { (mainSt s cs bc fv conds1 conds2) with pc := cs.st.pc + 1, stack := .bv 256 (.con 1) :: rest, returndata := [] }, bal := bal' }] }) ∨
+       (∃ prog, codeOf codes t = some prog ∧ mainOf s o cfg codes cs op t fv ao al ro rl rest bc conds1 =
+          { next := [calleeOfG s { cs with st := mainSt s cs bc fv conds1 conds2, bal := bal' } op t ao al ro rl rest prog fv cs.bal] }))) := by
+  unfold mainOf
+  simp only
+  by_cases h4 : specialAddr t = true
+  · rw [if_pos h4]; exact Or.inl ⟨_, rfl, rfl, _, rfl⟩
+  rw [if_neg h4]
+  by_cases h5 : cs.depth + 1 > 1024
+  · rw [if_pos h5]; exact Or.inl ⟨_, rfl, rfl, _, rfl⟩
+  rw [if_neg h5]
+  by_cases hf : s.b (.cmp .uge bc fv) = .lit false
+  · rw [if_pos hf]; exact Or.inr (Or.inl ⟨rfl, hf⟩)
+  rw [if_neg hf]
+  by_cases h1 : op = 0xf1
+  · rw [if_pos h1]
+    unfold transferM
+    simp only
+    cases hbo : balanceOfM s o cfg (addCond s (conds1.foldl (addCond s) cs.st) (s.b (.cmp .uge bc fv))).path
+        ((cs.env.address, .bin .sub bc fv) :: cs.bal) (.lit 160 t) with
+    | none => exact Or.inl ⟨_, rfl, rfl, _, rfl⟩
+    | some bc2 =>
+      obtain ⟨bt, conds2⟩ := bc2
+      simp only
+      refine Or.inr (Or.inr ⟨conds2, _, h5, Or.inl ⟨h1, bt, rfl, rfl⟩, ?_⟩)
+      cases hc : codeOf codes t with
+      | none => exact Or.inl ⟨rfl, rfl⟩
+      | some prog => exact Or.inr ⟨prog, rfl, rfl⟩
+  · rw [if_neg h1]
+    simp only
+    refine Or.inr (Or.inr ⟨[], _, h5, Or.inr ⟨h1, rfl, rfl⟩, ?_⟩)
+    cases hc : codeOf codes t with
+    | none => exact Or.inl ⟨rfl, rfl⟩
+    | some prog => exact Or.inr ⟨prog, rfl, rfl⟩
+
+section
+variable {I : Interp} {p : Evm.Params} {S : Nat → Prop} {w0 : Evm.World}
+variable {cs : CState} {w : Evm.World} {f : Evm.Frame} {kcs : List CCont}
+variable {s : Simp} {o : Oracle} {cfg : Cfg} {codes : List (Nat × List Nat)}
+variable {op t v : Nat} {fv : T} {ao al ro rl : Nat} {rest : List HV} {f1t : Evm.Frame} {bc : T} {conds1 : List B}
+
+/-- the world the callee of the main path starts in, and the balance array that describes it -/
+theorem ValueCtx.main_world (hs : SimpSound s) (ho : OracleSound o) (hb : BalHyp I cfg w0)
+    (hx : ValueCtx I p S w0 s cs w f kcs op t v fv ao al ro rl rest f1t bc conds1)
+    (hle : v ≤ w.balanceOf f.this)
+    (hsat2 : Sat I (addCond s (conds1.foldl (addCond s) cs.st) (s.b (.cmp .uge bc fv))).path)
+    {conds2 : List B} {bal' : List (T × T)}
+    (htr : (op = 0xf1 ∧ ∃ bt, balanceOfM s o cfg (addCond s (conds1.foldl (addCond s) cs.st) (s.b (.cmp .uge bc fv))).path
+            ((cs.env.address, .bin .sub bc fv) :: cs.bal) (.lit 160 t) = some (bt, conds2) ∧
+          bal' = (.lit 160 t, .bin .add bt fv) :: (cs.env.address, .bin .sub bc fv) :: cs.bal) ∨
+       (op ≠ 0xf1 ∧ conds2 = [] ∧ bal' = cs.bal)) :
+    (∀ c ∈ conds2, c.WF) ∧ ChainWF bal' ∧
+      WRelM I S w0 (callWorld op w f.this t v) (viewOf cs) (evalLogs I cs.logs) (balSem I w0 bal') ∧
+      (BalBound w → ∀ c ∈ conds2, c.eval I = true) ∧
+      (BalBound w → BalBound (callWorld op w f.this t v)) := by
+  obtain ⟨f1, f2, f3, f4, f5⟩ := callWorld_fields op w f.this t v
+  rcases htr with ⟨h1, bt, hbo, rfl⟩ | ⟨h1, rfl, rfl⟩
+  · subst h1
+    have hsubwf : (T.bin .sub bc fv).WF ∧ (T.bin .sub bc fv).width = 256 :=
+      ⟨⟨hx.hbc.1, hx.hfv.1, by rw [hx.hbc.2.1, hx.hfv.2.1]⟩, hx.hbc.2.1⟩
+    have hchain1 : ChainWF ((cs.env.address, .bin .sub bc fv) :: cs.bal) :=
+      ChainWF.cons ⟨hx.hme.1, hx.hme.2.1⟩ hsubwf hx.hrel.hbal
+    have htoK : (T.lit 160 t).WF ∧ (T.lit 160 t).width = 160 ∧ (T.lit 160 t).eval I = t :=
+      ⟨(by decide : 0 < 160), rfl, Nat.mod_eq_of_lt hx.ht⟩
+    obtain ⟨b1, b2, b3, cwf, ctrue⟩ := balanceOfM_ok hs ho hb hsat2 hchain1 htoK.1 htoK.2.1 hbo
+    rw [htoK.2.2] at b3 ctrue
+    have haddwf : (T.bin .add bt fv).WF ∧ (T.bin .add bt fv).width = 256 :=
+      ⟨⟨b1, hx.hfv.1, by rw [b2, hx.hfv.2.1]⟩, b2⟩
+    have hbalT := transfer_bal hb hx.hrel.hbal hx.hrel.hW.bal hx.hme.2.2 htoK.2.2 hx.hbc.2.2 hx.hbc.2.1 hx.hfv.2.2
+      hle b2 b3
+    refine ⟨cwf, ChainWF.cons ⟨htoK.1, htoK.2.1⟩ haddwf hchain1,
+      hx.hrel.hW.setBalances f1 f2 f3 f4 f5 hbalT, fun hbb => ctrue ?_, fun hbb => ?_⟩
+    · -- the target's balance after the debit is within the bound
+      have hlt : w.balanceOf f.this < 2 ^ 256 := by rw [hx.hrel.hW.bal]; exact balSem_lt hb hx.hrel.hbal _
+      simp only [balSem, hx.hme.2.2, sub_eval hx.hbc.2.1 hx.hbc.2.2 hx.hfv.2.2 hle hlt, ← hx.hrel.hW.bal t]
+      split
+      · exact le_trans (Nat.sub_le _ _) (hbb.le _)
+      · exact hbb.le _
+    · unfold callWorld
+      split
+      · exact (hbb.transfer hle).1
+      · exact hbb
+  · have hop2 : op = 0xf2 := by rcases hx.h7 with h | h; exact absurd h h1; exact h
+    subst hop2
+    have hcw : callWorld 0xf2 w f.this t v = w := by unfold callWorld; simp
+    rw [hcw]
+    exact ⟨fun c hc => absurd hc List.not_mem_nil, hx.hrel.hbal, hx.hrel.hW,
+      fun _ c hc => absurd hc List.not_mem_nil, fun hbb => hbb⟩
+
+end
+
+section
+variable {I : Interp} {p : Evm.Params} {S : Nat → Prop} {w0 : Evm.World}
+variable {cs : CState} {w : Evm.World} {f : Evm.Frame} {kcs : List CCont}
+variable {s : Simp} {o : Oracle} {cfg : Cfg} {codes : List (Nat × List Nat)}
+
+/-- a value-bearing call, decoded: an end about which nothing is claimed, or the two parts with everything known -/
+theorem valueCase_ctx (hs : SimpSound s) (ho : OracleSound o) (hb : BalHyp I cfg w0)
+    (hmem : cfg.maxMem + 32 ≤ p.memLimit) (hrel : RelC I p S w0 cs w f kcs) (hsat : Sat I cs.st.path) {op : Nat}
+    {lo : LocalOut} (hv : ValueCase I p s o cfg codes cs w f op lo) :
+    (∃ e, lo = { ends := [e] } ∧ e.st = cs.st ∧ ((∃ r', e.out = .stuck r') ∨ e.tag ≠ .normal)) ∨
+    ∃ (t v : Nat) (fv : T) (ao al ro rl : Nat) (rest : List HV) (crest : List Nat) (bc : T) (conds1 : List B),
+      lo = { next := failNextOf s o cs bc fv conds1 rest ++
+                       (mainOf s o cfg codes cs op t fv ao al ro rl rest bc conds1).next,
+             ends := (mainOf s o cfg codes cs op t fv ao al ro rl rest bc conds1).ends } ∧
+      ValueCtx I p S w0 s cs w f kcs op t v fv ao al ro rl rest
+        ((({ f with stack := crest } : Evm.Frame).touch ao al).touch ro rl) bc conds1 ∧
+      Evm.step p w f = .call op w { f with stack := crest } t v ao al ro rl ∧
+      Evm.memOk p ao al = true ∧ Evm.memOk p ro rl = true := by
+  obtain ⟨t, v, fv, ao, al, ro, rl, rest, crest, rfl, h7, hrest, ht, f1, f2, f3, hstep⟩ := hv
+  unfold callGo
+  simp only
+  by_cases h1 : al ≠ 0 ∧ ao + al > cfg.maxMem
+  · rw [if_pos h1]; exact Or.inl ⟨_, rfl, rfl, Or.inr (fun h => Tag.noConfusion h)⟩
+  rw [if_neg h1]
+  by_cases h2 : rl ≠ 0 ∧ ro + rl > cfg.maxMem
+  · rw [if_pos h2]; exact Or.inl ⟨_, rfl, rfl, Or.inr (fun h => Tag.noConfusion h)⟩
+  rw [if_neg h2]
+  simp only [Option.isSome_some, if_true, Option.getD_some]
+  have hm1 : Evm.memOk p ao al = true := memOk_of (by
+    by_cases h0 : al = 0
+    · exact Or.inl h0
+    · right; have : ¬ ao + al > cfg.maxMem := fun h => h1 ⟨h0, h⟩
+      omega)
+  have hm2 : Evm.memOk p ro rl = true := memOk_of (by
+    by_cases h0 : rl = 0
+    · exact Or.inl h0
+    · right; have : ¬ ro + rl > cfg.maxMem := fun h => h2 ⟨h0, h⟩
+      omega)
+  by_cases hbal : cfg.balances = true
+  swap
+  · unfold callGoV
+    have : (!cfg.balances) = true := by simpa using hbal
+    simp only [this, if_true]
+    exact Or.inl ⟨_, rfl, rfl, Or.inl ⟨_, rfl⟩⟩
+  by_cases hst : cs.env.isStatic = true ∧ op = 0xf1
+  · unfold callGoV
+    have : ¬ (!cfg.balances) = true := by simp [hbal]
+    simp only [this, if_false, hst, and_self, if_true]
+    exact Or.inl ⟨_, rfl, rfl, Or.inr (fun h => Tag.noConfusion h)⟩
+  by_cases hw : cs.env.address.width = 160
+  swap
+  · unfold callGoV
+    have : ¬ (!cfg.balances) = true := by simp [hbal]
+    have hw' : cs.env.address.width ≠ 160 := hw
+    simp only [this, if_false, hst, hw', ne_eq, not_false_eq_true, if_true]
+    exact Or.inl ⟨_, rfl, rfl, Or.inl ⟨_, rfl⟩⟩
+  have hR := hrel.hR
+  have hme : cs.env.address.WF ∧ cs.env.address.width = 160 ∧ cs.env.address.eval I = f.this :=
+    ⟨hR.env.address.1, hw, hR.env.address.2.2⟩
+  cases hbo : balanceOfM s o cfg cs.st.path cs.bal cs.env.address with
+  | none =>
+    unfold callGoV
+    have : ¬ (!cfg.balances) = true := by simp [hbal]
+    have hw' : ¬ cs.env.address.width ≠ 160 := by simp [hw]
+    simp only [this, if_false, hst, hw', hbo]
+    exact Or.inl ⟨_, rfl, rfl, Or.inl ⟨_, rfl⟩⟩
+  | some bcc =>
+    obtain ⟨bc, conds1⟩ := bcc
+    obtain ⟨b1, b2, b3, cwf, ctrue⟩ := balanceOfM_ok hs ho hb hsat hrel.hbal hme.1 hme.2.1 hbo
+    rw [hme.2.2, ← hrel.hW.bal f.this] at b3 ctrue
+    refine Or.inr ⟨t, v, fv, ao, al, ro, rl, rest, crest, bc, conds1, callGoV_eq hbal hst hw hbo, ?_, hstep, hm1, hm2⟩
+    generalize hf1t : (({ f with stack := crest } : Evm.Frame).touch ao al).touch ro rl = f1t
+    have e_code : f1t.code = f.code := by rw [← hf1t, touch_code, touch_code]
+    have e_caller : f1t.caller = f.caller := by rw [← hf1t, touch_caller, touch_caller]
+    have e_value : f1t.value = f.value := by rw [← hf1t, touch_value, touch_value]
+    have e_this : f1t.this = f.this := by rw [← hf1t, touch_this, touch_this]
+    have e_cd : f1t.calldata = f.calldata := by rw [← hf1t, touch_calldata, touch_calldata]
+    have e_static : f1t.isStatic = f.isStatic := by rw [← hf1t, touch_isStatic, touch_isStatic]
+    have e_rd : f1t.returndata = f.returndata := by rw [← hf1t, touch_returndata, touch_returndata]
+    have e_mem : f1t.mem = f.mem := by rw [← hf1t, touch_mem, touch_mem]
+    have e_pc : f1t.pc = f.pc := by rw [← hf1t, touch_pc, touch_pc]
+    have e_depth : f1t.depth = f.depth := by rw [← hf1t, touch_depth, touch_depth]
+    have hRk : R I cs.env cs.code p { cs.st with stack := rest } f1t :=
+      hR.next' ⟨e_code, e_caller, e_value, e_this, e_cd, e_static, e_rd⟩ rfl rfl rfl e_mem rfl
+        (by rw [e_pc]; exact hR.pc) (by rw [← hf1t, touch_stack, touch_stack]; exact hrest)
+    refine ⟨hrel, hsat, h7, ht, ⟨f1, f2, f3⟩, hme, ⟨b1, b2, b3⟩, cwf, fun hbb => ctrue (hbb.le _), hRk,
+      ⟨e_code, e_caller, e_value, e_this, e_cd, e_static, e_depth⟩, e_pc, e_mem, ?_⟩
+    -- not a value-bearing CALL in a static frame
+    rw [e_static, ← hR.env.isStatic]
+    by_cases hs1 : op = 0xf1
+    · have : ¬ cs.env.isStatic = true := fun h => hst ⟨h, hs1⟩
+      simp [this]
+    · simp [hs1]
+
+end
+
+section
+variable {I : Interp} {p : Evm.Params} {S : Nat → Prop} {w0 : Evm.World}
+variable {cs : CState} {w : Evm.World} {f : Evm.Frame} {kcs : List CCont}
+variable {s : Simp} {o : Oracle} {cfg : Cfg} {codes : List (Nat × List Nat)}
+variable {op t v : Nat} {fv : T} {ao al ro rl : Nat} {rest : List HV} {f1t : Evm.Frame} {bc : T} {conds1 : List B}
+
+/-- the reference's funds check, as a Boolean -/
+theorem ValueCtx.fund_bool (hx : ValueCtx I p S w0 s cs w f kcs op t v fv ao al ro rl rest f1t bc conds1) :
+    ((decide (op = 0xf1) || decide (op = 0xf2)) && decide (v ≠ 0) && decide (w.balanceOf f1t.this < v)) =
+      decide (w.balanceOf f.this < v) := by
+  rw [hx.ectx.2.2.2.1]
+  have h1 : (decide (op = 0xf1) || decide (op = 0xf2)) = true := by
+    rcases hx.h7 with h | h <;> simp [h]
+  rw [h1]
+  by_cases hlt : w.balanceOf f.this < v
+  · have : v ≠ 0 := by omega
+    simp [hlt, this]
+  · simp [hlt]
+
+/-- the main path's successor (either kind) against the reference: related, and with the same completions -/
+theorem ValueCtx.main_ok (hs : SimpSound s) (ho : OracleSound o) (hb : BalHyp I cfg w0) (hdep : 1024 ≤ p.maxDepth)
+    (hcodes : ∀ a, w0.codeOf a = codeOf codes a) (hS : ∀ a prog, codeOf codes a = some prog → S a)
+    (hcb : ∀ a prog, codeOf codes a = some prog → ∀ b ∈ prog, b < 256)
+    (hx : ValueCtx I p S w0 s cs w f kcs op t v fv ao al ro rl rest f1t bc conds1)
+    {crest : List Nat} (hf1t : f1t = (({ f with stack := crest } : Evm.Frame).touch ao al).touch ro rl)
+    (hstep : Evm.step p w f = .call op w { f with stack := crest } t v ao al ro rl)
+    (hm1 : Evm.memOk p ao al = true) (hm2 : Evm.memOk p ro rl = true) (h5 : ¬ cs.depth + 1 > 1024)
+    (hle : v ≤ w.balanceOf f.this)
+    (hsat2 : Sat I (addCond s (conds1.foldl (addCond s) cs.st) (s.b (.cmp .uge bc fv))).path)
+    {conds2 : List B} {bal' : List (T × T)}
+    (htr : (op = 0xf1 ∧ ∃ bt, balanceOfM s o cfg (addCond s (conds1.foldl (addCond s) cs.st) (s.b (.cmp .uge bc fv))).path
+            ((cs.env.address, .bin .sub bc fv) :: cs.bal) (.lit 160 t) = some (bt, conds2) ∧
+          bal' = (.lit 160 t, .bin .add bt fv) :: (cs.env.address, .bin .sub bc fv) :: cs.bal) ∨
+       (op ≠ 0xf1 ∧ conds2 = [] ∧ bal' = cs.bal))
+    {cs' : CState}
+    (hcs' : (codeOf codes t = none ∧ cs' = { cs with st := { (mainSt s cs bc fv conds1 conds2) with pc := cs.st.pc + 1, stack := .bv 256 (.con 1) :: rest, returndata := [] }, bal := bal' }) ∨
+      (∃ prog, codeOf codes t = some prog ∧
+        cs' = calleeOfG s { cs with st := mainSt s cs bc fv conds1 conds2, bal := bal' } op t ao al ro rl rest prog fv cs.bal)) :
+    (∀ c ∈ conds2, c.WF) ∧ (BalBound w → ∀ c ∈ conds2, c.eval I = true) ∧
+    ∃ w' f' kcs', RelC I p S w0 cs' w' f' kcs' ∧ (∀ r, RunStack p w f kcs r ↔ RunStack p w' f' kcs' r) ∧
+      (BBAllT w kcs → BBAllT w' kcs') := by
+  obtain ⟨hc2, hwf, hWT, hc2t, hbbT⟩ := hx.main_world hs ho hb hle hsat2 htr
+  have hfund : ((decide (op = 0xf1) || decide (op = 0xf2)) && decide (v ≠ 0) &&
+      decide (w.balanceOf f1t.this < v)) = false := by
+    rw [hx.fund_bool]; simp; exact hle
+  have hd : ¬ f1t.depth + 1 > p.maxDepth := by
+    rw [hx.ectx.2.2.2.2.2.2, hx.hrel.depth]; omega
+  have hwcode : w.codeOf t = codeOf codes t := by
+    have := hcodes t
+    unfold Evm.World.codeOf at this ⊢
+    rw [hx.hrel.hW.code]; exact this
+  subst hf1t
+  have hiff := fun r => runStack_callv (p := p) hstep hm1 hm2 hx.hstat hfund hd kcs r
+  rw [hx.ectx.2.2.2.1] at hiff
+  refine ⟨hc2, hc2t, ?_⟩
+  rcases hcs' with ⟨hc, rfl⟩ | ⟨prog, hc, rfl⟩
+  · refine ⟨_, _, kcs, hx.main_nocode hs hc2 hWT hwf, fun r => (hiff r).trans ?_, fun hbb => ⟨hbbT hbb.1, hbb.2⟩⟩
+    have hstop : Evm.step p (callWorld op w f.this t v)
+        (calleeFrameV op ((({ f with stack := crest } : Evm.Frame).touch ao al).touch ro rl) w t v ao al) =
+        .halt (callWorld op w f.this t v) (.success []) := by
+      apply evm_stop
+      · simp [calleeFrameV, hwcode, hc]
+      · simp [calleeFrameV]
+    exact runStack_halt_cons hstop _ kcs r
+  · exact ⟨_, _, _, hx.main_callee hs hS hcb hc2 hWT hwf hc hwcode, hiff, fun hbb => ⟨hbbT hbb.1, fun kc hm => by
+      rcases List.mem_cons.1 hm with rfl | hm
+      · exact hbb.1
+      · exact hbb.2 kc hm⟩⟩
 
 end
 
@@ -909,58 +1389,145 @@ theorem extOut_corr (hs : SimpSound s) (hmem : cfg.maxMem + 32 ≤ p.memLimit)
 
 end
 
-/-! ### the shape of a call, relation-free -/
+/-! ### shapes, relation-free -/
 
-/-- a call instruction ends the path in the state it was made in, or has one successor with the same path — the same
-    frame one instruction later, or a callee on top of the suspended caller -/
-def CallShape (cs : CState) (lo : LocalOut) : Prop :=
-  (∃ e, lo = { ends := [e] } ∧ e.st = cs.st) ∨
-  (∃ cs', lo = { next := [cs'] } ∧ cs'.st.path = cs.st.path ∧ (cs'.conts = cs.conts ∨ ∃ k, cs'.conts = k :: cs.conts))
+/-- what an instruction the frame-stack machine decodes itself does to the path and to the suspended callers: every
+    successor extends the path and keeps the suspended callers or pushes one; every end carries the path -/
+def LocalShape (cs : CState) (lo : LocalOut) : Prop :=
+  (∀ c ∈ lo.next, (∃ ext, c.st.path = cs.st.path ++ ext) ∧ (c.conts = cs.conts ∨ ∃ k, c.conts = k :: cs.conts)) ∧
+  (∀ e ∈ lo.ends, e.st.path = cs.st.path)
+
+theorem localShape_end {cs : CState} {e : EndState} (h : e.st = cs.st) : LocalShape cs { ends := [e] } :=
+  ⟨fun c hc => by simp at hc, fun e' he => by rw [List.mem_singleton.1 he, h]⟩
+
+theorem localShape_next {cs cs' : CState} (hp : ∃ ext, cs'.st.path = cs.st.path ++ ext)
+    (hk : cs'.conts = cs.conts ∨ ∃ k, cs'.conts = k :: cs.conts) : LocalShape cs { next := [cs'] } :=
+  ⟨fun c hc => by rw [List.mem_singleton.1 hc]; exact ⟨hp, hk⟩, fun e he => by simp at he⟩
+
+theorem localShape_lift {s : Simp} {o : Oracle} {cfg : Cfg} {cs : CState} {out : StepOut}
+    (h : Shape s o cfg cs.code cs.st out) : LocalShape cs (liftOut cs out) := by
+  refine ⟨fun c hc => ?_, fun e he => (shape_end_keeps h he).1⟩
+  obtain ⟨st', hm', rfl⟩ := List.mem_map.1 hc
+  exact ⟨shape_next_path h hm', Or.inl rfl⟩
 
 section
-variable {s : Simp} {cfg : Cfg} {codes : List (Nat × List Nat)} {cs : CState} {op t : Nat} {fund : Option T} {o : Oracle}
+variable {s : Simp} {o : Oracle} {cfg : Cfg} {codes : List (Nat × List Nat)} {cs : CState} {op t : Nat}
+variable {fund : Option T}
 
-macro "call_leaf" : tactic =>
-  `(tactic| first | exact Or.inl ⟨_, rfl, rfl⟩ | exact Or.inr ⟨_, rfl, rfl, Or.inl rfl⟩
-                  | exact Or.inr ⟨_, rfl, rfl, Or.inr ⟨_, rfl⟩⟩)
+macro "shape_leaf" : tactic =>
+  `(tactic| first
+    | exact localShape_end rfl
+    | exact localShape_next ⟨[], (List.append_nil _).symm⟩ (Or.inl rfl)
+    | exact localShape_next ⟨[], (List.append_nil _).symm⟩ (Or.inr ⟨_, rfl⟩))
+
+theorem callGoV_shape {fv : T} {ao al ro rl : Nat} {rest : List HV} :
+    LocalShape cs (callGoV s o cfg codes cs op t fv ao al ro rl rest) := by
+  by_cases hbal : cfg.balances = true
+  swap
+  · unfold callGoV
+    have : (!cfg.balances) = true := by simpa using hbal
+    simp only [this, if_true]; exact localShape_end rfl
+  by_cases hst : cs.env.isStatic = true ∧ op = 0xf1
+  · unfold callGoV
+    have : ¬ (!cfg.balances) = true := by simp [hbal]
+    simp only [this, if_false, hst, and_self, if_true]; exact localShape_end rfl
+  by_cases hw : cs.env.address.width = 160
+  swap
+  · unfold callGoV
+    have : ¬ (!cfg.balances) = true := by simp [hbal]
+    have hw' : cs.env.address.width ≠ 160 := hw
+    simp only [this, if_false, hst, hw', ne_eq, not_false_eq_true, if_true]; exact localShape_end rfl
+  cases hbo : balanceOfM s o cfg cs.st.path cs.bal cs.env.address with
+  | none =>
+    unfold callGoV
+    have : ¬ (!cfg.balances) = true := by simp [hbal]
+    have hw' : ¬ cs.env.address.width ≠ 160 := by simp [hw]
+    simp only [this, if_false, hst, hw', hbo]; exact localShape_end rfl
+  | some bcc =>
+    obtain ⟨bc, conds1⟩ := bcc
+    rw [callGoV_eq hbal hst hw hbo]
+    have hmainSt : ∀ conds2, ∃ ext, (mainSt s cs bc fv conds1 conds2).path = cs.st.path ++ ext := by
+      intro conds2; rw [mainSt_eq]; exact addConds_path_ext s _ cs.st
+    refine ⟨fun c hc => ?_, fun e he => ?_⟩
+    · rcases List.mem_append.1 hc with hc | hc
+      · unfold failNextOf at hc
+        split at hc
+        · simp at hc
+        · rw [List.mem_singleton.1 hc]
+          refine ⟨?_, Or.inl rfl⟩
+          obtain ⟨e1, h1⟩ := addConds_path_ext s conds1 cs.st
+          obtain ⟨e2, h2⟩ := addCond_path_ext s (conds1.foldl (addCond s) cs.st) (s.b (.cmp .ult bc fv))
+          exact ⟨e1 ++ e2, by show (addCond s _ _).path = _; rw [h2, h1, List.append_assoc]⟩
+      · rcases mainOf_cases s o cfg codes cs op t fv ao al ro rl rest bc conds1 with
+          ⟨e, he, _⟩ | ⟨he, _⟩ | ⟨conds2, bal', _, _, hcode⟩
+        · rw [he] at hc; simp at hc
+        · rw [he] at hc; simp at hc
+        · rcases hcode with ⟨_, he⟩ | ⟨prog, _, he⟩
+          · rw [he] at hc
+            rw [List.mem_singleton.1 hc]
+            exact ⟨hmainSt conds2, Or.inl rfl⟩
+          · rw [he] at hc
+            rw [List.mem_singleton.1 hc]
+            exact ⟨hmainSt conds2, Or.inr ⟨_, rfl⟩⟩
+    · rcases mainOf_cases s o cfg codes cs op t fv ao al ro rl rest bc conds1 with
+        ⟨e0, he0, hst0, _⟩ | ⟨he0, _⟩ | ⟨conds2, bal', _, _, hcode⟩
+      · rw [he0] at he; rw [List.mem_singleton.1 he, hst0]
+      · rw [he0] at he; simp at he
+      · rcases hcode with ⟨_, he0⟩ | ⟨prog, _, he0⟩ <;> (rw [he0] at he; simp at he)
 
 theorem callGo_shape {ao al ro rl : Nat} {rest : List HV} :
-    CallShape cs (callGo s o cfg codes cs op t fund ao al ro rl rest) := by
+    LocalShape cs (callGo s o cfg codes cs op t fund ao al ro rl rest) := by
   unfold callGo
   simp only
-  (repeat' split) <;> call_leaf
+  (repeat' split) <;> first | shape_leaf | exact callGoV_shape
 
-theorem callArgs_shape {r : List HV} : CallShape cs (callArgs s o cfg codes cs op t fund r) := by
+theorem callArgs_shape {r : List HV} : LocalShape cs (callArgs s o cfg codes cs op t fund r) := by
   unfold callArgs
   simp only
-  (repeat' split) <;> first | call_leaf | exact callGo_shape
+  (repeat' split) <;> first | shape_leaf | exact callGo_shape
 
-theorem callOut_shape : CallShape cs (callOut s o cfg codes cs op) := by
+theorem callOut_shape : LocalShape cs (callOut s o cfg codes cs op) := by
   unfold callOut
   simp only
-  (repeat' split) <;> first | call_leaf | exact callArgs_shape
+  (repeat' split) <;> first | shape_leaf | exact callArgs_shape
 
-end
-
-/-- a LOG, relation-free -/
-theorem logOut_shape {s : Simp} {cfg : Cfg} {cs : CState} {op : Nat} : CallShape cs (logOut s cfg cs op) := by
+theorem logOut_shape : LocalShape cs (logOut s cfg cs op) := by
   unfold logOut
   simp only
-  (repeat' split) <;> call_leaf
+  (repeat' split) <;> shape_leaf
 
-/-- EXTCODESIZE / EXTCODECOPY, relation-free: as a call, or the copy tail -/
-def ExtShape (s : Simp) (o : Oracle) (cfg : Cfg) (cs : CState) (lo : LocalOut) : Prop :=
-  CallShape cs lo ∨ ∃ out, lo = liftOut cs out ∧ Shape s o cfg cs.code cs.st out
-
-theorem extOut_shape {s : Simp} {o : Oracle} {cfg : Cfg} {codes : List (Nat × List Nat)} {cs : CState} {op : Nat} :
-    ExtShape s o cfg cs (extOut s cfg codes cs op) := by
+theorem extOut_shape (o : Oracle) : LocalShape cs (extOut s cfg codes cs op) := by
   unfold extOut
   simp only
-  (repeat' split) <;>
-    first
-      | exact Or.inl (Or.inl ⟨_, rfl, rfl⟩)
-      | exact Or.inl (Or.inr ⟨_, rfl, rfl, Or.inl rfl⟩)
-      | exact Or.inr ⟨_, rfl, Shape.copy⟩
+  (repeat' split) <;> first | shape_leaf | exact localShape_lift (s := s) (o := o) Shape.copy
+
+theorem balOut_shape : LocalShape cs (balOut s o cfg cs op) := by
+  have go : ∀ (k : T) (rest : List HV), LocalShape cs
+      (match balanceOfM s o cfg cs.st.path cs.bal k with
+       | none => localStuck cs.st (.unsupported op)
+       | some (v, conds) =>
+         { next := [{ cs with st := pushTerm s (conds.foldl (addCond s) { cs.st with stack := rest }) v }] }) := by
+    intro k rest
+    cases balanceOfM s o cfg cs.st.path cs.bal k with
+    | none => exact localShape_end rfl
+    | some vc =>
+      obtain ⟨v, conds⟩ := vc
+      exact localShape_next (addConds_path_ext s conds { cs.st with stack := rest }) (Or.inl rfl)
+  unfold balOut
+  simp only
+  split
+  · shape_leaf
+  · split
+    · split
+      · shape_leaf
+      · exact go _ _
+    · split
+      · shape_leaf
+      · split
+        · exact go _ _
+        · shape_leaf
+
+end
 
 /-! ### one step of the frame-stack machine -/
 
@@ -975,6 +1542,8 @@ theorem stepC_eq :
     stepC s o cfg codes cs =
       if ¬ cs.st.stack.length > 1024 ∧ isCallOp (opAt cs.code cs.st.pc) = true then
         finish cs (callOut s o cfg codes cs (opAt cs.code cs.st.pc))
+      else if ¬ cs.st.stack.length > 1024 ∧ isBalOp (opAt cs.code cs.st.pc) = true then
+        finish cs (balOut s o cfg cs (opAt cs.code cs.st.pc))
       else if ¬ cs.st.stack.length > 1024 ∧ isLogOp (opAt cs.code cs.st.pc) = true then
         finish cs (logOut s cfg cs (opAt cs.code cs.st.pc))
       else if ¬ cs.st.stack.length > 1024 ∧ isExtOp (opAt cs.code cs.st.pc) = true then
@@ -986,97 +1555,46 @@ theorem stepC_eq :
   · simp only [hl, if_true, not_true_eq_false, false_and, if_false]; rfl
   · simp only [hl, if_false, not_false_eq_true, true_and]
 
-theorem mem_liftOut_next {out : StepOut} {cs' : CState} (h : cs' ∈ (liftOut cs out).next) :
-    ∃ st' ∈ out.next, cs' = { cs with st := st' } := by
-  obtain ⟨st', hm, rfl⟩ := List.mem_map.1 h
-  exact ⟨st', hm, rfl⟩
-
-/-- the path facts of `finish cs lo` from those of `lo` -/
-theorem finish_paths {lo : LocalOut} (hn : ∀ cs' ∈ lo.next, ∃ ext, cs'.st.path = cs.st.path ++ ext)
-    (he : ∀ e ∈ lo.ends, e.st.path = cs.st.path) :
-    (∀ cs' ∈ (finish cs lo).next, ∃ ext, cs'.st.path = cs.st.path ++ ext) ∧
-    (∀ ce ∈ (finish cs lo).ends, ce.e.st.path = cs.st.path) := by
-  refine ⟨fun cs' h => ?_, fun ce h => ?_⟩
-  · rcases mem_finish_next h with hm | ⟨e', he', k, ks, h', _, _, _, rfl⟩
-    · exact hn cs' hm
-    · exact ⟨[], by simp [resume, he e' he']⟩
-  · obtain ⟨e, hm, rfl, _⟩ := mem_finish_ends h
-    exact he e hm
-
-theorem callShape_paths {lo : LocalOut} (h : CallShape cs lo) :
-    (∀ cs' ∈ lo.next, ∃ ext, cs'.st.path = cs.st.path ++ ext) ∧ (∀ e ∈ lo.ends, e.st.path = cs.st.path) := by
-  rcases h with ⟨e, rfl, he⟩ | ⟨cs1, rfl, hp, _⟩
-  · refine ⟨fun cs' hm => by simp at hm, fun e' hm => ?_⟩
-    simp only [List.mem_singleton] at hm
-    subst hm; rw [he]
-  · refine ⟨fun cs' hm => ?_, fun e' hm => by simp at hm⟩
-    simp only [List.mem_singleton] at hm
-    subst hm; exact ⟨[], by simp [hp]⟩
-
-theorem liftShape_paths {out : StepOut} (h : Shape s o cfg cs.code cs.st out) :
-    (∀ cs' ∈ (liftOut cs out).next, ∃ ext, cs'.st.path = cs.st.path ++ ext) ∧
-    (∀ e ∈ (liftOut cs out).ends, e.st.path = cs.st.path) := by
-  refine ⟨fun cs' hm => ?_, fun e hm => (shape_end_keeps h hm).1⟩
-  obtain ⟨st', hm', rfl⟩ := mem_liftOut_next hm
-  exact shape_next_path h hm'
-
-theorem stepC_paths :
-    (∀ cs' ∈ (stepC s o cfg codes cs).next, ∃ ext, cs'.st.path = cs.st.path ++ ext) ∧
-    (∀ ce ∈ (stepC s o cfg codes cs).ends, ce.e.st.path = cs.st.path) := by
+/-- the local output `stepC` finishes, with its shape -/
+theorem stepC_local : ∃ lo, stepC s o cfg codes cs = finish cs lo ∧ LocalShape cs lo := by
   rw [stepC_eq]
   split
-  · exact finish_paths (callShape_paths callOut_shape).1 (callShape_paths callOut_shape).2
+  · exact ⟨_, rfl, callOut_shape⟩
   · split
-    · exact finish_paths (callShape_paths logOut_shape).1 (callShape_paths logOut_shape).2
+    · exact ⟨_, rfl, balOut_shape⟩
     · split
-      · rcases extOut_shape (s := s) (o := o) (cfg := cfg) (codes := codes) (cs := cs)
-          (op := opAt cs.code cs.st.pc) with h | ⟨out, e, h⟩
-        · exact finish_paths (callShape_paths h).1 (callShape_paths h).2
-        · rw [e]; exact finish_paths (liftShape_paths h).1 (liftShape_paths h).2
-      · refine finish_paths (fun cs' hm => ?_) (fun e hm => stepL_end_path hm)
-        obtain ⟨st', hm', rfl⟩ := mem_liftOut_next hm
-        exact stepL_next_path hm'
+      · exact ⟨_, rfl, logOut_shape⟩
+      · split
+        · exact ⟨_, rfl, extOut_shape o⟩
+        · refine ⟨_, rfl, fun c hc => ?_, fun e he => stepL_end_path he⟩
+          obtain ⟨st', hm', rfl⟩ := List.mem_map.1 hc
+          exact ⟨stepL_next_path hm', Or.inl rfl⟩
+
+theorem stepC_next_path {cs' : CState} (h : cs' ∈ (stepC s o cfg codes cs).next) :
+    ∃ ext, cs'.st.path = cs.st.path ++ ext := by
+  obtain ⟨lo, e, hsh⟩ := stepC_local (s := s) (o := o) (cfg := cfg) (codes := codes) (cs := cs)
+  rw [e] at h
+  rcases mem_finish_next h with hm | ⟨e', he', k, ks, h', _, _, _, rfl⟩
+  · exact (hsh.1 cs' hm).1
+  · exact ⟨[], by simp [resume, hsh.2 e' he']⟩
+
+theorem stepC_end_path {ce : CEnd} (h : ce ∈ (stepC s o cfg codes cs).ends) : ce.e.st.path = cs.st.path := by
+  obtain ⟨lo, e, hsh⟩ := stepC_local (s := s) (o := o) (cfg := cfg) (codes := codes) (cs := cs)
+  rw [e] at h
+  obtain ⟨e', hm, rfl, _⟩ := mem_finish_ends h
+  exact hsh.2 e' hm
 
 /-- the stack discipline of the suspended callers: a step keeps them, pushes one (a call) or pops one (a return);
     it never touches a suspended caller — in particular not its snapshot -/
 theorem stepC_conts {cs' : CState} (h : cs' ∈ (stepC s o cfg codes cs).next) :
     cs'.conts = cs.conts ∨ (∃ k, cs'.conts = k :: cs.conts) ∨ (∃ k, cs.conts = k :: cs'.conts) := by
-  have hfin : ∀ lo : LocalOut, (∀ c ∈ lo.next, c.conts = cs.conts ∨ ∃ k, c.conts = k :: cs.conts) →
-      cs' ∈ (finish cs lo).next →
-      cs'.conts = cs.conts ∨ (∃ k, cs'.conts = k :: cs.conts) ∨ (∃ k, cs.conts = k :: cs'.conts) := by
-    intro lo hn hm
-    rcases mem_finish_next hm with hm | ⟨e', _, k, ks, h', hc, _, _, rfl⟩
-    · rcases hn cs' hm with h1 | h1
-      · exact Or.inl h1
-      · exact Or.inr (Or.inl h1)
-    · exact Or.inr (Or.inr ⟨k, by rw [hc]; rfl⟩)
-  have hcall : ∀ lo : LocalOut, CallShape cs lo → ∀ c ∈ lo.next, c.conts = cs.conts ∨ ∃ k, c.conts = k :: cs.conts := by
-    intro lo hsh c hm
-    rcases hsh with ⟨e, rfl, _⟩ | ⟨cs1, rfl, _, hk⟩
-    · simp at hm
-    · simp only [List.mem_singleton] at hm
-      subst hm; exact hk
-  have hlift : ∀ out : StepOut, ∀ c ∈ (liftOut cs out).next, c.conts = cs.conts ∨ ∃ k, c.conts = k :: cs.conts := by
-    intro out c hm
-    obtain ⟨st', _, rfl⟩ := mem_liftOut_next hm
-    exact Or.inl rfl
-  rw [stepC_eq] at h
-  split at h
-  · exact hfin _ (hcall _ callOut_shape) h
-  · split at h
-    · exact hfin _ (hcall _ logOut_shape) h
-    · split at h
-      · rcases extOut_shape (s := s) (o := o) (cfg := cfg) (codes := codes) (cs := cs)
-          (op := opAt cs.code cs.st.pc) with hsh | ⟨out, e, _⟩
-        · exact hfin _ (hcall _ hsh) h
-        · rw [e] at h; exact hfin _ (hlift out) h
-      · exact hfin _ (hlift _) h
-
-theorem stepC_next_path {cs' : CState} (h : cs' ∈ (stepC s o cfg codes cs).next) :
-    ∃ ext, cs'.st.path = cs.st.path ++ ext := stepC_paths.1 cs' h
-
-theorem stepC_end_path {ce : CEnd} (h : ce ∈ (stepC s o cfg codes cs).ends) : ce.e.st.path = cs.st.path :=
-  stepC_paths.2 ce h
+  obtain ⟨lo, e, hsh⟩ := stepC_local (s := s) (o := o) (cfg := cfg) (codes := codes) (cs := cs)
+  rw [e] at h
+  rcases mem_finish_next h with hm | ⟨e', _, k, ks, h', hc, _, _, rfl⟩
+  · rcases (hsh.1 cs' hm).2 with h1 | h1
+    · exact Or.inl h1
+    · exact Or.inr (Or.inl h1)
+  · exact Or.inr (Or.inr ⟨k, by rw [hc]; rfl⟩)
 
 end
 
@@ -1087,7 +1605,7 @@ variable {s : Simp} {o : Oracle} {cfg : Cfg} {codes : List (Nat × List Nat)}
 
 theorem CallCorr.sound {lo : LocalOut} (h : CallCorr I p S w0 cs w f kcs lo) :
     LocalSound I p S w0 cs w f kcs lo := by
-  rcases h with ⟨e, rfl, he, hnc⟩ | ⟨h0, rfl, hh0, hstep⟩ | ⟨cs', w', f', kcs', rfl, hp, hrel', hiff⟩
+  rcases h with ⟨e, rfl, he, hnc⟩ | ⟨h0, rfl, hh0, hstep⟩ | ⟨cs', w', f', kcs', rfl, hp, hrel', hiff, _⟩
   · refine ⟨fun cs' hm => by simp at hm, fun e' hm => ?_⟩
     simp only [List.mem_singleton] at hm
     subst hm
@@ -1110,13 +1628,139 @@ theorem CallCorr.sound {lo : LocalOut} (h : CallCorr I p S w0 cs w f kcs lo) :
 
 theorem CallCorr.complete {lo : LocalOut} (h : CallCorr I p S w0 cs w f kcs lo)
     (hrel : RelC I p S w0 cs w f kcs) (hsat : Sat I cs.st.path) {r : Evm.World × Evm.Halt}
-    (hrun : RunStack p w f kcs r) : LocalComplete I p S w0 cs w f r lo := by
-  rcases h with ⟨e, rfl, he, hnc⟩ | ⟨h0, rfl, hh0, hstep⟩ | ⟨cs', w', f', kcs', rfl, hp, hrel', hiff⟩
+    (hrun : RunStack p w f kcs r) {C : Prop} (hbb : BBAll C w kcs) : LocalComplete I p S w0 C cs w f r lo := by
+  rcases h with ⟨e, rfl, he, hnc⟩ | ⟨h0, rfl, hh0, hstep⟩ | ⟨cs', w', f', kcs', rfl, hp, hrel', hiff, hbb'⟩
   · exact Or.inr (Or.inl ⟨e, by simp, by rw [he]; exact ⟨rfl, rfl, rfl, rfl⟩, Or.inr hnc⟩)
   · refine Or.inr (Or.inl ⟨{ st := cs.st, out := .halt h0 }, by simp [localHalt], ⟨rfl, rfl, rfl, rfl⟩,
       Or.inl ⟨h0, (w, h0), rfl, rfl, (halts_halt hstep).2 rfl, by simp only [List.map_nil, hh0],
         fun b hb => absurd hb List.not_mem_nil, wrelM_fullOf_keeps hrel ⟨rfl, rfl, rfl, rfl⟩⟩⟩)
-  · exact Or.inl ⟨cs', by simp, by rw [hp]; exact hsat, w', f', kcs', hrel', (hiff r).1 hrun⟩
+  · exact Or.inl ⟨cs', by simp, by rw [hp]; exact hsat, w', f', kcs', hrel', (hiff r).1 hrun, fun hC => hbb' (hbb hC)⟩
+
+theorem BalCorr.sound (hs : SimpSound s) {lo : LocalOut} (h : BalCorr I p S w0 s cs w f kcs lo) :
+    LocalSound I p S w0 cs w f kcs lo := by
+  rcases h with hno | hh | ⟨cs', f', conds, X, rfl, cwf, hX, hp, hk, hrel', hiff, _⟩
+  · exact CallCorr.sound (Or.inl hno)
+  · exact CallCorr.sound (Or.inr (Or.inl hh))
+  · refine ⟨fun cs1 hm _ => ?_, fun e' hm => by simp at hm⟩
+    simp only [List.mem_singleton] at hm
+    subst hm
+    exact ⟨w, f', kcs, hrel', fun r hr => (hiff r).2 hr⟩
+
+theorem BalCorr.complete (hs : SimpSound s) {lo : LocalOut} (h : BalCorr I p S w0 s cs w f kcs lo)
+    (hrel : RelC I p S w0 cs w f kcs) (hsat : Sat I cs.st.path) {r : Evm.World × Evm.Halt}
+    (hrun : RunStack p w f kcs r) {C : Prop} (hC : C) (hbb : BBAll C w kcs) :
+    LocalComplete I p S w0 C cs w f r lo := by
+  rcases h with hno | hh | ⟨cs', f', conds, X, rfl, cwf, hX, hp, hk, hrel', hiff, htrue⟩
+  · exact CallCorr.complete (Or.inl hno) hrel hsat hrun hbb
+  · exact CallCorr.complete (Or.inr (Or.inl hh)) hrel hsat hrun hbb
+  · refine Or.inl ⟨cs', by simp, ?_, w, f', kcs, hrel', (hiff r).1 hrun, hbb⟩
+    rw [hp, addConds_sat hs cwf, hX]
+    exact ⟨hsat, htrue (hbb hC).1⟩
+
+/-- **a value-bearing call, soundness.** -/
+theorem valueCase_sound (hs : SimpSound s) (ho : OracleSound o) (hb : BalHyp I cfg w0)
+    (hmem : cfg.maxMem + 32 ≤ p.memLimit) (hdep : 1024 ≤ p.maxDepth)
+    (hcodes : ∀ a, w0.codeOf a = codeOf codes a) (hS : ∀ a prog, codeOf codes a = some prog → S a)
+    (hcb : ∀ a prog, codeOf codes a = some prog → ∀ b ∈ prog, b < 256)
+    (hrel : RelC I p S w0 cs w f kcs) (hsat : Sat I cs.st.path) {op : Nat} {lo : LocalOut}
+    (hv : ValueCase I p s o cfg codes cs w f op lo) : LocalSound I p S w0 cs w f kcs lo := by
+  rcases valueCase_ctx hs ho hb hmem hrel hsat hv with hno |
+    ⟨t, v, fv, ao, al, ro, rl, rest, crest, bc, conds1, rfl, hx, hstep, hm1, hm2⟩
+  · exact CallCorr.sound (Or.inl hno)
+  refine ⟨fun cs' hm hsat' => ?_, fun e hm => ?_⟩
+  · rcases List.mem_append.1 hm with hm | hm
+    · -- the insufficient-funds branch
+      unfold failNextOf at hm
+      split at hm
+      · simp at hm
+      · rw [List.mem_singleton.1 hm] at hsat' ⊢
+        have hins := ((addCond_sat hs (hx.insuff_ok hs).1).1 hsat').2
+        rw [(hx.insuff_ok hs).2] at hins
+        have hfund := hx.fund_bool
+        rw [hins] at hfund
+        exact ⟨w, _, kcs, hx.fail_rel hs,
+          fun r hr => (runStack_call_insufficient hstep hm1 hm2 hx.hstat hfund kcs r).2 hr⟩
+    · rcases mainOf_cases s o cfg codes cs op t fv ao al ro rl rest bc conds1 with
+        ⟨e, he, _⟩ | ⟨he, _⟩ | ⟨conds2, bal', h5, htr, hcode⟩
+      · rw [he] at hm; simp at hm
+      · rw [he] at hm; simp at hm
+      · have hcs' : (codeOf codes t = none ∧ cs' = { cs with st := { (mainSt s cs bc fv conds1 conds2) with pc := cs.st.pc + 1, stack := .bv 256 (.con 1) :: rest, returndata := [] }, bal := bal' }) ∨
+            (∃ prog, codeOf codes t = some prog ∧
+              cs' = calleeOfG s { cs with st := mainSt s cs bc fv conds1 conds2, bal := bal' } op t ao al ro rl rest prog fv cs.bal) := by
+          rcases hcode with ⟨hc, he⟩ | ⟨prog, hc, he⟩
+          · rw [he] at hm; exact Or.inl ⟨hc, List.mem_singleton.1 hm⟩
+          · rw [he] at hm; exact Or.inr ⟨prog, hc, List.mem_singleton.1 hm⟩
+        have hsatM : Sat I (mainSt s cs bc fv conds1 conds2).path := by
+          rcases hcs' with ⟨_, rfl⟩ | ⟨prog, _, rfl⟩ <;> exact hsat'
+        have hsat2 : Sat I (addCond s (conds1.foldl (addCond s) cs.st) (s.b (.cmp .uge bc fv))).path := by
+          obtain ⟨ext, hext⟩ := addConds_path_ext s conds2
+            (addCond s (conds1.foldl (addCond s) cs.st) (s.b (.cmp .uge bc fv)))
+          have : (mainSt s cs bc fv conds1 conds2).path = _ := hext
+          rw [this] at hsatM
+          exact (sat_append.1 hsatM).1
+        have hsuf := ((addCond_sat hs (hx.suff_ok hs).1).1 hsat2).2
+        rw [(hx.suff_ok hs).2] at hsuf
+        have hle : v ≤ w.balanceOf f.this := by simpa using hsuf
+        obtain ⟨_, _, w', f', kcs', hrel', hiff, _⟩ :=
+          hx.main_ok hs ho hb hdep hcodes hS hcb rfl hstep hm1 hm2 h5 hle hsat2 htr hcs'
+        exact ⟨w', f', kcs', hrel', fun r hr => (hiff r).2 hr⟩
+  · rcases mainOf_cases s o cfg codes cs op t fv ao al ro rl rest bc conds1 with
+      ⟨e0, he0, hst0, r', hr'⟩ | ⟨he0, _⟩ | ⟨conds2, bal', _, _, hcode⟩
+    · rw [he0] at hm
+      rw [List.mem_singleton.1 hm]
+      refine ⟨by rw [hst0]; exact ⟨rfl, rfl, rfl, rfl⟩, fun _ h ho' => ?_⟩
+      rw [hr'] at ho'; cases ho'
+    · rw [he0] at hm; simp at hm
+    · rcases hcode with ⟨_, he0⟩ | ⟨prog, _, he0⟩ <;> (rw [he0] at hm; simp at hm)
+
+/-- **a value-bearing call, completeness.** -/
+theorem valueCase_complete (hs : SimpSound s) (ho : OracleSound o) (hb : BalHyp I cfg w0)
+    (hmem : cfg.maxMem + 32 ≤ p.memLimit) (hdep : 1024 ≤ p.maxDepth)
+    (hcodes : ∀ a, w0.codeOf a = codeOf codes a) (hS : ∀ a prog, codeOf codes a = some prog → S a)
+    (hcb : ∀ a prog, codeOf codes a = some prog → ∀ b ∈ prog, b < 256)
+    (hrel : RelC I p S w0 cs w f kcs) (hsat : Sat I cs.st.path) {r : Evm.World × Evm.Halt}
+    (hrun : RunStack p w f kcs r) {C : Prop} (hC : C) (hbb : BBAll C w kcs) {op : Nat} {lo : LocalOut}
+    (hv : ValueCase I p s o cfg codes cs w f op lo) : LocalComplete I p S w0 C cs w f r lo := by
+  rcases valueCase_ctx hs ho hb hmem hrel hsat hv with hno |
+    ⟨t, v, fv, ao, al, ro, rl, rest, crest, bc, conds1, rfl, hx, hstep, hm1, hm2⟩
+  · exact CallCorr.complete (Or.inl hno) hrel hsat hrun hbb
+  have hsat1 : Sat I (conds1.foldl (addCond s) cs.st).path :=
+    (addConds_sat hs hx.hc1 cs.st).2 ⟨hsat, hx.hc1t (hbb hC).1⟩
+  by_cases hlt : w.balanceOf f.this < v
+  · -- the reference cannot pay: the insufficient-funds branch is there
+    have hins : (s.b (.cmp .ult bc fv)).eval I = true := by rw [(hx.insuff_ok hs).2]; simpa using hlt
+    have hne : exCheck s o (conds1.foldl (addCond s) cs.st).path (s.b (.cmp .ult bc fv)) ≠ .unsat := by
+      intro hu
+      have := exCheck_sound hs ho (hx.insuff_ok hs).1 hu I hsat1
+      rw [hins] at this; cases this
+    have hfund := hx.fund_bool
+    rw [show decide (w.balanceOf f.this < v) = true by simpa using hlt] at hfund
+    refine Or.inl ⟨_, List.mem_append_left _ (by unfold failNextOf; rw [if_neg hne]; exact List.mem_singleton.2 rfl),
+      ?_, w, _, kcs, hx.fail_rel hs, (runStack_call_insufficient hstep hm1 hm2 hx.hstat hfund kcs r).1 hrun, hbb⟩
+    exact (addCond_sat hs (hx.insuff_ok hs).1).2 ⟨hsat1, hins⟩
+  · have hle : v ≤ w.balanceOf f.this := by omega
+    have hsuf : (s.b (.cmp .uge bc fv)).eval I = true := by rw [(hx.suff_ok hs).2]; simpa using hle
+    have hsat2 : Sat I (addCond s (conds1.foldl (addCond s) cs.st) (s.b (.cmp .uge bc fv))).path :=
+      (addCond_sat hs (hx.suff_ok hs).1).2 ⟨hsat1, hsuf⟩
+    rcases mainOf_cases s o cfg codes cs op t fv ao al ro rl rest bc conds1 with
+      ⟨e0, he0, hst0, hr'⟩ | ⟨_, hfalse⟩ | ⟨conds2, bal', h5, htr, hcode⟩
+    · exact Or.inr (Or.inl ⟨e0, by rw [he0]; simp, by rw [hst0]; exact ⟨rfl, rfl, rfl, rfl⟩, Or.inr (Or.inl hr')⟩)
+    · rw [hfalse] at hsuf; cases hsuf
+    · have hcs' : ∃ cs', cs' ∈ (mainOf s o cfg codes cs op t fv ao al ro rl rest bc conds1).next ∧
+          ((codeOf codes t = none ∧ cs' = { cs with st := { (mainSt s cs bc fv conds1 conds2) with pc := cs.st.pc + 1, stack := .bv 256 (.con 1) :: rest, returndata := [] }, bal := bal' }) ∨
+            (∃ prog, codeOf codes t = some prog ∧
+              cs' = calleeOfG s { cs with st := mainSt s cs bc fv conds1 conds2, bal := bal' } op t ao al ro rl rest prog fv cs.bal)) := by
+        rcases hcode with ⟨hc, he⟩ | ⟨prog, hc, he⟩
+        · exact ⟨_, by rw [he]; exact List.mem_singleton.2 rfl, Or.inl ⟨hc, rfl⟩⟩
+        · exact ⟨_, by rw [he]; exact List.mem_singleton.2 rfl, Or.inr ⟨prog, hc, rfl⟩⟩
+      obtain ⟨cs', hmem', hcs'⟩ := hcs'
+      obtain ⟨hc2, hc2t, w', f', kcs', hrel', hiff, hbb'⟩ :=
+        hx.main_ok hs ho hb hdep hcodes hS hcb rfl hstep hm1 hm2 h5 hle hsat2 htr hcs'
+      have hsatM : Sat I (mainSt s cs bc fv conds1 conds2).path :=
+        (addConds_sat hs hc2 _).2 ⟨hsat2, hc2t (hbb hC).1⟩
+      refine Or.inl ⟨cs', List.mem_append_right _ hmem', ?_, w', f', kcs', hrel', (hiff r).1 hrun,
+        fun hC' => hbb' (hbb hC')⟩
+      rcases hcs' with ⟨_, rfl⟩ | ⟨prog, _, rfl⟩ <;> exact hsatM
 
 theorem ExtCorr.sound (hs : SimpSound s) (hrel : RelC I p S w0 cs w f kcs) {lo : LocalOut}
     (h : ExtCorr I p S w0 cs w f kcs s o cfg lo) : LocalSound I p S w0 cs w f kcs lo := by
@@ -1125,63 +1769,123 @@ theorem ExtCorr.sound (hs : SimpSound s) (hrel : RelC I p S w0 cs w f kcs) {lo :
   · exact local_corr_sound hs hrel hc hsh
 
 theorem ExtCorr.complete (hs : SimpSound s) (ho : OracleSound o) (hrel : RelC I p S w0 cs w f kcs)
-    (hsat : Sat I cs.st.path) {r : Evm.World × Evm.Halt} (hrun : RunStack p w f kcs r) {lo : LocalOut}
-    (h : ExtCorr I p S w0 cs w f kcs s o cfg lo) : LocalComplete I p S w0 cs w f r lo := by
+    (hsat : Sat I cs.st.path) {r : Evm.World × Evm.Halt} (hrun : RunStack p w f kcs r) {C : Prop}
+    (hbb : BBAll C w kcs)
+    {lo : LocalOut} (h : ExtCorr I p S w0 cs w f kcs s o cfg lo) : LocalComplete I p S w0 C cs w f r lo := by
   rcases h with h | ⟨out, rfl, hc, hsh⟩
-  · exact h.complete hrel hsat hrun
-  · exact local_corr_complete hs ho hrel hsat hrun hc hsh
+  · exact h.complete hrel hsat hrun hbb
+  · exact local_corr_complete hs ho hrel hsat hrun hbb hc hsh
 
-/-- **stepC_sound.** -/
+/-- with balances switched off a value-bearing call is an error report -/
+theorem callGo_some_off (hbal : ¬ cfg.balances = true) {op t : Nat} {fv : T} {ao al ro rl : Nat} {rest : List HV} :
+    CallCorr I p S w0 cs w f kcs (callGo s o cfg codes cs op t (some fv) ao al ro rl rest) := by
+  unfold callGo
+  simp only [Option.isSome_some, if_true, Option.getD_some]
+  by_cases h1 : al ≠ 0 ∧ ao + al > cfg.maxMem
+  · rw [if_pos h1]; exact Or.inl ⟨_, rfl, rfl, Or.inr (fun h => Tag.noConfusion h)⟩
+  rw [if_neg h1]
+  by_cases h2 : rl ≠ 0 ∧ ro + rl > cfg.maxMem
+  · rw [if_pos h2]; exact Or.inl ⟨_, rfl, rfl, Or.inr (fun h => Tag.noConfusion h)⟩
+  rw [if_neg h2]
+  unfold callGoV
+  have : (!cfg.balances) = true := by simpa using hbal
+  simp only [this, if_true]
+  exact Or.inl ⟨_, rfl, rfl, Or.inl ⟨_, rfl⟩⟩
+
+/-- **stepC_sound.** `hob`: the solver's `unsat` answers are assumed right as soon as balances are followed
+    (`Exec.select` simplifies a read of the balance array with them); otherwise nothing is assumed of the oracle. -/
 theorem stepC_sound (hs : SimpSound s) (hI : I.Std) (hmem : cfg.maxMem + 32 ≤ p.memLimit)
     (hdep : 1024 ≤ p.maxDepth) (hcodes : ∀ a, w0.codeOf a = codeOf codes a)
     (hS : ∀ a prog, codeOf codes a = some prog → S a)
     (hcb : ∀ a prog, codeOf codes a = some prog → ∀ b ∈ prog, b < 256)
+    (hob : cfg.balances = true → OracleSound o ∧ BalHyp I cfg w0)
     (hrel : RelC I p S w0 cs w f kcs) (hsat : Sat I cs.st.path) :
     (∀ cs' ∈ (stepC s o cfg codes cs).next, Sat I cs'.st.path → ∃ w' f' kcs', RelC I p S w0 cs' w' f' kcs' ∧
         ∀ r, RunStack p w' f' kcs' r → RunStack p w f kcs r) ∧
     (∀ ce ∈ (stepC s o cfg codes cs).ends, ce.e.tag = .normal → ∀ h, ce.e.out = .halt h →
         ∃ w', RunStack p w f kcs (w', haltWith h (ce.e.data.map (·.eval I))) ∧
-          WRelM I S w0 w' (stoOf ce.stores) (evalLogs I ce.logs)) := by
+          WRelM I S w0 w' (stoOf ce.stores) (evalLogs I ce.logs) (balSem I w0 ce.bal)) := by
   rw [stepC_eq]
   split
   · rename_i hc
-    exact finish_sound hrel hsat
-      (callOut_corr hs hmem hdep hcodes hS hcb hrel rfl ((isCallOp_iff _).1 hc.2) hc.1).sound
+    refine finish_sound hrel hsat ?_
+    rcases callOut_corr (o := o) hs hmem hdep hcodes hS hcb hrel rfl ((isCallOp_iff _).1 hc.2) hc.1 with h | h
+    · exact h.sound
+    · by_cases hbal : cfg.balances = true
+      · exact valueCase_sound hs (hob hbal).1 (hob hbal).2 hmem hdep hcodes hS hcb hrel hsat h
+      · -- balances are off: the value-bearing call is an error report
+        obtain ⟨t, v, fv, ao, al, ro, rl, rest, crest, e, _⟩ := h
+        rw [e]
+        have hno : CallCorr I p S w0 cs w f kcs
+            (callGo s o cfg codes cs (opAt cs.code cs.st.pc) t (some fv) ao al ro rl rest) := callGo_some_off hbal
+        exact hno.sound
   · split
     · rename_i hc
-      exact finish_sound hrel hsat (logOut_corr hs hmem hrel rfl ((isLogOp_iff _).1 hc.2) hc.1).sound
+      refine finish_sound hrel hsat ?_
+      by_cases hbal : cfg.balances = true
+      · exact (balOut_corr hs (hob hbal).1 (hob hbal).2 hrel hsat rfl ((isBalOp_iff _).1 hc.2) hc.1).sound hs
+      · have hno : CallCorr I p S w0 cs w f kcs (balOut s o cfg cs (opAt cs.code cs.st.pc)) := by
+          unfold balOut
+          have : (!cfg.balances) = true := by simpa using hbal
+          simp only [this, if_true]
+          exact Or.inl ⟨_, rfl, rfl, Or.inl ⟨_, rfl⟩⟩
+        exact hno.sound
     · split
       · rename_i hc
-        exact finish_sound hrel hsat
-          ((extOut_corr (o := o) hs hmem hcodes hcb hrel hsat rfl ((isExtOp_iff _).1 hc.2) hc.1).sound hs hrel)
-      · exact finish_sound hrel hsat (local_step_sound hs hI hmem hrel hsat)
+        exact finish_sound hrel hsat (logOut_corr hs hmem hrel rfl ((isLogOp_iff _).1 hc.2) hc.1).sound
+      · split
+        · rename_i hc
+          exact finish_sound hrel hsat
+            ((extOut_corr (o := o) hs hmem hcodes hcb hrel hsat rfl ((isExtOp_iff _).1 hc.2) hc.1).sound hs hrel)
+        · exact finish_sound hrel hsat (local_step_sound hs hI hmem hrel hsat)
 
 /-- **stepC_complete.** -/
 theorem stepC_complete (hs : SimpSound s) (ho : OracleSound o) (hI : I.Std) (hmem : cfg.maxMem + 32 ≤ p.memLimit)
     (hdep : 1024 ≤ p.maxDepth) (hcodes : ∀ a, w0.codeOf a = codeOf codes a)
     (hS : ∀ a prog, codeOf codes a = some prog → S a)
     (hcb : ∀ a prog, codeOf codes a = some prog → ∀ b ∈ prog, b < 256)
+    (hb : cfg.balances = true → BalHyp I cfg w0)
     (hrel : RelC I p S w0 cs w f kcs) (hsat : Sat I cs.st.path) {r : Evm.World × Evm.Halt}
-    (hrun : RunStack p w f kcs r) :
+    (hrun : RunStack p w f kcs r) (hbb : BBAll (cfg.balances = true) w kcs) :
     (∃ cs' ∈ (stepC s o cfg codes cs).next, Sat I cs'.st.path ∧ ∃ w' f' kcs', RelC I p S w0 cs' w' f' kcs' ∧
-        RunStack p w' f' kcs' r) ∨
+        RunStack p w' f' kcs' r ∧ BBAll (cfg.balances = true) w' kcs') ∨
     (∃ ce ∈ (stepC s o cfg codes cs).ends, EndCoversC I S w0 r ce) ∨
     (stepC s o cfg codes cs).bounded ≠ [] := by
   rw [stepC_eq]
   split
   · rename_i hc
-    exact finish_complete hrel hsat hrun
-      ((callOut_corr hs hmem hdep hcodes hS hcb hrel rfl ((isCallOp_iff _).1 hc.2) hc.1).complete hrel hsat hrun)
+    refine finish_complete hrel hsat hrun hbb ?_
+    rcases callOut_corr (o := o) hs hmem hdep hcodes hS hcb hrel rfl ((isCallOp_iff _).1 hc.2) hc.1 with h | h
+    · exact h.complete hrel hsat hrun hbb
+    · by_cases hbal : cfg.balances = true
+      · exact valueCase_complete hs ho (hb hbal) hmem hdep hcodes hS hcb hrel hsat hrun hbal hbb h
+      · obtain ⟨t, v, fv, ao, al, ro, rl, rest, crest, e, _⟩ := h
+        rw [e]
+        have hno : CallCorr I p S w0 cs w f kcs
+            (callGo s o cfg codes cs (opAt cs.code cs.st.pc) t (some fv) ao al ro rl rest) := callGo_some_off hbal
+        exact hno.complete hrel hsat hrun hbb
   · split
     · rename_i hc
-      exact finish_complete hrel hsat hrun
-        ((logOut_corr hs hmem hrel rfl ((isLogOp_iff _).1 hc.2) hc.1).complete hrel hsat hrun)
+      refine finish_complete hrel hsat hrun hbb ?_
+      by_cases hbal : cfg.balances = true
+      · exact (balOut_corr hs ho (hb hbal) hrel hsat rfl ((isBalOp_iff _).1 hc.2) hc.1).complete hs hrel hsat hrun
+          hbal hbb
+      · have hno : CallCorr I p S w0 cs w f kcs (balOut s o cfg cs (opAt cs.code cs.st.pc)) := by
+          unfold balOut
+          have : (!cfg.balances) = true := by simpa using hbal
+          simp only [this, if_true]
+          exact Or.inl ⟨_, rfl, rfl, Or.inl ⟨_, rfl⟩⟩
+        exact hno.complete hrel hsat hrun hbb
     · split
       · rename_i hc
-        exact finish_complete hrel hsat hrun
-          ((extOut_corr (o := o) hs hmem hcodes hcb hrel hsat rfl ((isExtOp_iff _).1 hc.2) hc.1).complete hs ho hrel
-            hsat hrun)
-      · exact finish_complete hrel hsat hrun (local_step_complete hs ho hI hmem hrel hsat hrun)
+        exact finish_complete hrel hsat hrun hbb
+          ((logOut_corr hs hmem hrel rfl ((isLogOp_iff _).1 hc.2) hc.1).complete hrel hsat hrun hbb)
+      · split
+        · rename_i hc
+          exact finish_complete hrel hsat hrun hbb
+            ((extOut_corr (o := o) hs hmem hcodes hcb hrel hsat rfl ((isExtOp_iff _).1 hc.2) hc.1).complete hs ho hrel
+              hsat hrun hbb)
+        · exact finish_complete hrel hsat hrun hbb (local_step_complete hs ho hI hmem hrel hsat hrun hbb)
 
 end
 
